@@ -87,6 +87,13 @@ fn main() {
             let plan = plan_or_die(&rf.property, rf.tier);
             std::process::exit(run::replay_case(&plan, &rf.engine, &rf.case, quiet));
         }
+        "child" => {
+            let what = args.get(2).map(|s| s.as_str()).unwrap_or("");
+            match what {
+                "c16" => eng::c16::child_main(args[3].parse().unwrap(), args[4].parse().unwrap()),
+                _ => std::process::exit(2),
+            }
+        }
         _ => {
             eprintln!("usage: tv run|worker|replay ...");
             std::process::exit(2);
